@@ -520,7 +520,35 @@ func ruleHops(r *core.Reporter) {
 			}
 		}
 	})
-	if eoCall != nil {
+	soFn := p.Func(rel(pkgPost), "shouldExtractOutlinks")
+	if eoCall != nil && soFn == nil {
+		// the predicate folded into postprocessItem by hand: extractOutlinks must be unreachable once the
+		// `domains crawl` and `hops < MaxHops` edges are removed
+		hp := "$" + pi.Params[0].Name() + ".GetURL().GetHops()"
+		type edge struct {
+			b *ssa.BasicBlock
+			s int
+		}
+		cut := map[edge]bool{}
+		for _, ii := range ir.Ifs(pi) {
+			if ir.BoolCallAtom(ii.Atom, pkgDomains+".Enabled") != nil {
+				cut[edge{ii.If.Block(), ii.EdgeWhen(true)}] = true
+			}
+			for _, pol := range []bool{true, false} {
+				if ii.Atom.States(pol, token.LSS, hp, "config.Get().MaxHops") {
+					cut[edge{ii.If.Block(), ii.EdgeWhen(pol)}] = true
+				}
+			}
+		}
+		res := ir.Reach([]ir.Pt{ir.Entry(pi)}, ir.Opts{EdgeOK: func(b *ssa.BasicBlock, sidx int) bool { return !cut[edge{b, sidx}] }})
+		if len(cut) >= 2 && !res.Reached[eoCall] {
+			n++
+			r.Held("postprocessItem/outlinks-guard", 1, "extractOutlinks only for hops < MaxHops or domains crawl (predicate folded into postprocessItem)")
+			r.Held("shouldExtractOutlinks", len(cut), "true only for hops < MaxHops or domains crawl")
+		} else {
+			r.Violated("postprocessItem/outlinks-guard", p.InstrPos(eoCall), "outlinks are extracted without the hop test")
+		}
+	} else if eoCall != nil {
 		if _, g := ir.GuardedBy(pi, ir.Entry(pi), eoCall, true, func(a ir.Atom) bool {
 			c := ir.BoolCallAtom(a, pkgPost+".shouldExtractOutlinks")
 			return c != nil && ir.SameValue(c.Call.Args[0], pi.Params[0])
@@ -562,9 +590,11 @@ func ruleHops(r *core.Reporter) {
 		}
 	}
 	// shouldExtractOutlinks
-	so := p.Func(rel(pkgPost), "shouldExtractOutlinks")
+	so := soFn
 	if so == nil {
-		r.Undecided("shouldExtractOutlinks", "", "anchor not found")
+		if eoCall == nil {
+			r.Undecided("shouldExtractOutlinks", "", "anchor not found")
+		}
 	} else {
 		r.Analysed(so)
 		hp := "$" + so.Params[0].Name() + ".GetURL().GetHops()"
